@@ -11,6 +11,7 @@ pub mod c22;
 pub mod c23;
 pub mod c34;
 pub mod hist;
+pub mod structural;
 
 #[derive(Clone)]
 pub struct Ctx {
@@ -74,6 +75,7 @@ pub fn registry() -> Vec<PropInfo> {
     let mut v = vec![];
     v.extend(hist::props());
     v.extend(c09::props());
+    v.extend(structural::props());
     v.extend(c19::props());
     v.extend(c20::props());
     v.extend(c21::props());
